@@ -58,6 +58,14 @@ impl<T: Qcow2IoOps> Qcow2Dev<T> {
         Ok(())
     }
 
+    /// if some new cluster has been zeroed after the last completed
+    /// whole-file sync was submitted
+    #[inline]
+    fn zeroing_unsynced(&self) -> bool {
+        self.synced_zeroed_clusters.load(Ordering::Relaxed)
+            < self.zeroed_clusters.load(Ordering::Relaxed)
+    }
+
     /// flush data range in (offset, len) to disk
     #[inline]
     pub(crate) async fn call_fsync(&self, offset: u64, len: usize, flags: u32) -> Qcow2Result<()> {
@@ -343,9 +351,7 @@ impl<T: Qcow2IoOps> Qcow2Dev<T> {
                 // completed now, but the refcount flush syncs only if it has
                 // written something, and one sync in flight when the zeroing
                 // was completed doesn't cover it
-                if self.synced_zeroed_clusters.load(Ordering::Relaxed)
-                    < self.zeroed_clusters.load(Ordering::Relaxed)
-                {
+                if self.zeroing_unsynced() {
                     self.call_fsync(0, usize::MAX, 0).await?;
                 }
                 Ok(())
@@ -482,8 +488,25 @@ impl<T: Qcow2IoOps> Qcow2Dev<T> {
             let end = key_fn(((idx + 1) as u64) << bs_bits);
 
             let res = async {
-                if self.flush_cache(cache, start, end, mapping).await? {
-                    // order cache flush and the upper layer table
+                let flushed = self.flush_cache(cache, start, end, mapping).await?;
+
+                // One cluster pointed to by this block may still be new if
+                // no slice of it was dirty, which happens if the operation
+                // that allocated it has failed: nobody else is going to zero
+                // it, and this block must not point to its stale content.
+                let first = ((idx << bs_bits) >> 3) as usize;
+                let last = std::cmp::min(first + (1 << (bs_bits - 3)), rt.entries());
+                for i in first..last {
+                    let off = rt.get(i).get_value();
+                    if off != 0 {
+                        self.settle_new_meta_cluster(off).await?;
+                    }
+                }
+
+                // order cache flush and the upper layer table; one cluster
+                // pointed to by this block may have been zeroed without any
+                // slice of it being dirty now, and that has to be on disk too
+                if flushed || self.zeroing_unsynced() {
                     self.call_fsync(0, usize::MAX, 0).await?;
                 }
                 self.flush_table(rt, idx << bs_bits, 1 << bs_bits).await
